@@ -239,6 +239,7 @@ func r16_3(c *Ctx, rule string) {
 	ex.StopAtTarget = true
 	h := ex.Run()
 	c.R.Check(len(h) == 0 && !ex.Exhausted, rule, base+"/marked-copied", c.pos(cdo), "each handled ancestor is marked copied in the shared slice", "a handled ancestor is not marked copied in copier.parentDirs: it is re-created (and its metadata re-applied) for every later entry")
+	c.ObNoStaleElementStores(rule, fn, 1, "parent-directory record")
 	// the source directory is stat'ed and must be a directory
 	c.ObPrecedes(rule, base+"/source-is-dir", fn, nil, c.callPred("(io/fs.FileInfo).IsDir"), func(in ssa.Instruction) bool { return in == ssa.Instruction(cdo) }, "a directory test of the source", "creating the ancestor")
 }
